@@ -21,7 +21,7 @@ PROPS = {
         "assumptions": ["rand's shuffle returns a permutation of the block"],
     },
     "C06": {
-        "engines": [{"name": "token", "quick": 60, "thorough": 600}],
+        "engines": [{"name": "token", "quick": 60, "thorough": 600}, {"name": "handler", "quick": 40, "thorough": 600, "oracle_tag": "C06"}],
         "constants": ["TOKEN_REFRESH_INTERVAL_ns", "INFO_HASH_LEN"],
         "trusted": COMMON_TRUST + [
             "symbolic tokens: SHA-1 is collision-free on the 8/20-byte inputs, a party not given a token cannot produce it, fresh 32-bit secrets differ from earlier ones (2^-32 per rotation; the harness checks token == SHA1(ip||secret) with its own SHA-1)",
@@ -30,7 +30,7 @@ PROPS = {
         "level_note": "store-level clauses proved for all histories; the handler-level gate (store only after checkin accepts, error 203, wrong-length tokens) is decided by the handler model of C05 (C06_gate)",
     },
     "C07": {
-        "engines": [{"name": "storage", "quick": 30, "thorough": 400}],
+        "engines": [{"name": "storage", "quick": 30, "thorough": 400}, {"name": "handler", "quick": 40, "thorough": 600, "oracle_tag": "C07"}],
         "constants": ["MAX_ITEMS_STORED", "EXPIRATION_TIME_ns"],
         "trusted": COMMON_TRUST + ["the HashMap<InfoHash, Vec<item>> is represented by one list in push order (observationally the same map: lookups are by key only)"],
         "assumptions": ["clock is monotone"],
@@ -73,5 +73,40 @@ PROPS = {
         "trusted": COMMON_TRUST + ["Rust-level panic/abort/stack-overflow freedom is runtime behaviour observed by the supervised decoder child (2 MiB stack, RLIMIT_AS 3 GiB, allocation counter); no theorem covers it"],
         "assumptions": [],
         "level_note": "PARTIAL: proved — decoder model total, every materialised string <= input length, pre-scan rejects over-long strings / nesting > 32 and accepts all well-formed values within the limit; not provable in Lean — that the Rust code does not panic/abort/overflow (tie only); the 'node keeps serving' clause is decided by the node engine once built",
+    },
+    "C02": {
+        "engines": [{"name": "handler", "quick": 60, "thorough": 1500, "oracle_tag": "C02"}],
+        "constants": ["ANNOUNCE_PICK_NUM", "INITIAL_PICK_NUM", "ITERATIVE_PICK_NUM", "MAX_TOKEN_LEN"],
+        "trusted": COMMON_TRUST + ["transaction ids, action ids and token secrets are symbolic in the model and canonicalised by order of first appearance on both sides (C19/C06 prove what the symbols stand for)", "tokio timers fire at their deadline rounded up to the 1 ms tick (the observed instant is an oracle input of the `fire` op)"],
+        "assumptions": [],
+        "level_note": "PARTIAL: proved for all runs — every peer of every accepted answer is delivered once per occurrence; the announces go to the first 8 token-holding candidates in candidate order with that node's latest token, the info-hash, the own id and the configured port. Not proved in Lean — that under E1-E4 all 8 closest nodes are queried/answer in time and the candidate list is sorted; the end-to-end claim is decided by the [C02] oracle on truthful simulated networks (tie)",
+    },
+    "C03": {
+        "engines": [{"name": "handler", "quick": 60, "thorough": 1500, "oracle_tag": "C03"}],
+        "constants": ["ANNOUNCE_PICK_NUM", "MAX_TOKEN_LEN"],
+        "trusted": COMMON_TRUST + ["transaction ids, action ids and token secrets are symbolic in the model and canonicalised by order of first appearance on both sides (C19/C06 prove what the symbols stand for)", "tokio timers fire at their deadline rounded up to the 1 ms tick (the observed instant is an oracle input of the `fire` op)"],
+        "assumptions": [],
+        "level_note": "yield provenance, announce discipline (<= 8, only when requested, only token holders, latest token), token provenance, routing by action prefix and run-once are proved for all event sequences at lookup/handler-model level; the model is tied to the real handler by lockstep on hostile network scenarios",
+    },
+    "C04": {
+        "engines": [{"name": "handler", "quick": 60, "thorough": 1500, "oracle_tag": "C04"}],
+        "constants": ["LOOKUP_TIMEOUT_ns", "ENDGAME_TIMEOUT_ns"],
+        "trusted": COMMON_TRUST + ["transaction ids, action ids and token secrets are symbolic in the model and canonicalised by order of first appearance on both sides (C19/C06 prove what the symbols stand for)", "tokio timers fire at their deadline rounded up to the 1 ms tick (the observed instant is an oracle input of the `fire` op)"],
+        "assumptions": [],
+        "level_note": "PARTIAL: proved — immediate close without good nodes; answers and query timeouts never end a search (only the end-game timer, scheduled 1.5 s after nothing was outstanding); every query gets a 1.5 s timeout entry; timer pops in deadline order, cancel removes exactly its entry. Not proved in Lean — the quantitative upper bound (1.5 s per node told about + 3 s), decided by the [C04] oracles on silent/lossy/chain/hostile networks (tie)",
+    },
+    "C05": {
+        "engines": [{"name": "handler", "quick": 60, "thorough": 1500, "oracle_tag": "C05"}],
+        "constants": ["PROTOCOL_ERROR", "SERVER_ERROR", "REPLY_NODES_PER_FAMILY", "REPLY_NODES_PER_FAMILY_V6", "MAX_VALUES_V4", "MAX_VALUES_V6"],
+        "trusted": COMMON_TRUST + ["transaction ids, action ids and token secrets are symbolic in the model and canonicalised by order of first appearance on both sides (C19/C06 prove what the symbols stand for)", "tokio timers fire at their deadline rounded up to the 1 ms tick (the observed instant is an oracle input of the `fire` op)"],
+        "assumptions": [],
+        "level_note": "one reply per query with echoed id and own id, reply shapes, 203/202 conditions, read-only silence, no reply to errors/responses are proved for every handler state; finding F5 (query swallowed by Socket::recv when it reuses a pending bootstrap id) is about the socket layer in front of the handler and is decided by the node engine",
+    },
+    "C12": {
+        "engines": [{"name": "handler", "quick": 60, "thorough": 1500, "oracle_tag": "C12"}],
+        "constants": ["MAX_BUCKET_SIZE"],
+        "trusted": COMMON_TRUST + ["transaction ids, action ids and token secrets are symbolic in the model and canonicalised by order of first appearance on both sides (C19/C06 prove what the symbols stand for)", "tokio timers fire at their deadline rounded up to the 1 ms tick (the observed instant is an oracle input of the `fire` op)"],
+        "assumptions": [],
+        "level_note": "a query never changes any (id,address) slot; a response whose id routes nowhere changes nothing; named nodes are offered as questionable; own id and router addresses are never live after any handler step (C08 invariant along TReach). Known finding F12: the refresh action prefix is accepted with any message id",
     },
 }
